@@ -37,10 +37,13 @@ def build(placement, producer, arg_passing=False, n_loads=1):
     def produce():
         if producer in ("data-function-before", "after"):
             return [{"k": "call", "callee": ("m0", "prod"), "args": []}]
-        if producer == "keep-before":
+        if producer in ("keep-before", "keep-alias-before", "keep-alias-after"):
             return [{"k": "keep", "path": "/p", "callee": ("m0", "prod"), "pos": [], "kw": [], "layout": "single"}]
         return []
-    if producer in ("data-function-before", "keep-before"):
+    if producer in ("keep-alias-before", "keep-alias-after", "alias-of-earlier-evaluation"):
+        # the producer function is also kept under a second path first: two keeps of one function in one evaluation
+        root_stmts.append({"k": "keep", "path": "/alias", "callee": ("m0", "prod"), "pos": [], "kw": [], "layout": "single"})
+    if producer in ("data-function-before", "keep-before", "keep-alias-before"):
         root_stmts += produce()
     if placement == "root":
         base = len(root_stmts)
@@ -57,7 +60,7 @@ def build(placement, producer, arg_passing=False, n_loads=1):
             root_stmts.append({"k": "keep", "path": "/reader", "callee": ("m0", "reader"), "pos": [], "kw": [], "layout": "single"})
         else:
             root_stmts.append({"k": "call", "callee": ("m0", "reader"), "args": []})
-    if producer == "after":
+    if producer in ("after", "keep-alias-after"):
         root_stmts += produce()
     funcs.append({"name": "root", "params": [], "annot": None, "salt": "t0", "stmts": root_stmts, "reads": []})
     prog = {"pkg": "vpl", "ext_helpers": {}, "root": ("m0", "root"), "modules": {"m0": {"vars": {"VAR_P": i_(1)}, "funcs": funcs}}}
@@ -69,7 +72,7 @@ def scenario(placement, producer, populated, arg_passing, n_loads=1):
     call = {"a": "call", "mod": "m0", "fn": "root", "style": "eval", "pos": [], "kw": []}
     prod_call = {"a": "call", "mod": "m0", "fn": "prod", "style": "direct", "pos": [], "kw": []}
     ev = [("prog", prog)]
-    if producer == "earlier-evaluation" or populated:
+    if producer in ("earlier-evaluation", "alias-of-earlier-evaluation") or populated:
         if P.find_func(prog, "m0", "prod").get("annot"):
             ev.append(("act", prod_call))
         else:
@@ -82,13 +85,15 @@ def scenario(placement, producer, populated, arg_passing, n_loads=1):
     ev.append(("prog", p2))
     if producer == "earlier-evaluation":
         ev.append(("act", prod_call))
+    if producer == "alias-of-earlier-evaluation":
+        ev.append(("act", {"a": "call", "mod": "m0", "fn": "prod", "style": "keep", "path": "/p", "pos": [], "kw": []}))
     ev.append(("act", call))
     ev.append(("act", call))
     return ev
 
 
 def expected_rejected(producer, populated):
-    return producer in ("after", "never")
+    return producer in ("after", "never", "keep-alias-after")
 
 
 def run_one(job):
@@ -162,7 +167,7 @@ def run(rep, tier, seed, proof_ok):
     run_raw(rep)
     rep.rule = ("every placement of dds.load {root of the evaluated function, nested helper, function kept with dds.keep, data function} x "
                 "producer of the path {data function earlier in the same evaluation, dds.keep earlier in the same evaluation, later in "
-                "the same evaluation, an earlier evaluation, never} x {fresh, populated store} x {loaded value only returned, loaded "
+                "the same evaluation, an earlier evaluation, never; + the producer kept under two paths, the loaded one before / after the reader} x {fresh, populated store} x {loaded value only returned, loaded "
                 "value passed to a nested keep} (+ the same path loaded two / three times by one reader); history: evaluate twice, change the producer's tracked variable, (re-produce,) evaluate "
                 "twice; compared with the dds-free reference (value most recently kept in program order), with the Coq model, and "
                 "with the expectation that read-before-produce / never-produced is rejected by a DDS error; exhaustive over this matrix")
@@ -176,6 +181,14 @@ def run(rep, tier, seed, proof_ok):
     for placement, producer, n_loads in itertools.product(PLACEMENTS, ("data-function-before", "keep-before", "earlier-evaluation"), (2, 3)):
         jobs.append({"placement": placement, "producer": producer, "populated": False, "arg_passing": n_loads == 3, "n_loads": n_loads,
                      "events": scenario(placement, producer, False, n_loads == 3, n_loads)})
+    # one function kept under two paths in one evaluation, the loaded one before / after the reader (fresh and populated store)
+    # the loaded path comes from an earlier evaluation and the same function is kept under another path in this one (one signature, two paths)
+    for placement in PLACEMENTS:
+        jobs.append({"placement": placement, "producer": "alias-of-earlier-evaluation", "populated": False, "arg_passing": False,
+                     "events": scenario(placement, "alias-of-earlier-evaluation", False, False)})
+    for placement, producer, populated in itertools.product(PLACEMENTS, ("keep-alias-before", "keep-alias-after"), (False, True)):
+        jobs.append({"placement": placement, "producer": producer, "populated": populated, "arg_passing": False,
+                     "events": scenario(placement, producer, populated, False)})
     # the loaded path was never produced but is a strict prefix of a committed path (a directory of the data tree)
     for placement in PLACEMENTS:
         prog = build(placement, "earlier-evaluation")
